@@ -10,6 +10,7 @@ EXTENDS Naturals, Sequences, TLC
 
 CONSTANTS Days,        \* days with a weather file
           TimedDays,   \* those whose file has a 24-hour valid_time axis
+          MissingDays, \* days without a weather file: a query for them is refused and leaves nothing open
           Hours, MaxQ
 
 \* the wind (an integer tag) a file holds: per hour for timed files, one field otherwise
@@ -33,11 +34,25 @@ Query(d, h) ==
      /\ mainDay' = d /\ mainHourOfOpen' = (IF reopen THEN h ELSE mainHourOfOpen)
      /\ slice' = newslice
      /\ sliceHour' = IF d \in TimedDays THEN h ELSE NoHour
-     /\ answers' = Append(answers, [d |-> d, h |-> h, wind |-> newslice])
+     /\ answers' = Append(answers, [d |-> d, h |-> h, wind |-> newslice, refused |-> FALSE])
      /\ n' = n + 1
-WNext == \E d \in Days, h \in Hours : Query(d, h)
+\* a day without a file: the open fails after the previous file was closed - nothing is open afterwards
+Refuse(d, h) ==
+  /\ n < MaxQ
+  /\ mainDay' = NoDay /\ mainHourOfOpen' = NoHour /\ slice' = 0 /\ sliceHour' = NoHour
+  /\ answers' = Append(answers, [d |-> d, h |-> h, wind |-> 0, refused |-> TRUE])
+  /\ n' = n + 1
+Ask(d, h) == IF d \in MissingDays THEN Refuse(d, h) ELSE Query(d, h)
+WNext == \E d \in Days \cup MissingDays, h \in Hours : Ask(d, h)
+\* family "repeat after refusal": any query, a refused one, the SAME refused one again, any query
+FamNext == \/ n \in {0, 3} /\ WNext
+           \/ n = 1 /\ \E d \in MissingDays, h \in Hours : Ask(d, h)
+           \/ n = 2 /\ Ask(answers[2].d, answers[2].h)
+FSpec == WInit /\ [][FamNext]_wvars
 WSpec == WInit /\ [][WNext]_wvars
 
 \* every answer is the wind of its own day and hour
-HistoryIndependent == \A i \in DOMAIN answers : answers[i].wind = Field(answers[i].d, answers[i].h)
+HistoryIndependent == \A i \in DOMAIN answers :
+                          IF answers[i].d \in MissingDays THEN answers[i].refused
+                          ELSE ~answers[i].refused /\ answers[i].wind = Field(answers[i].d, answers[i].h)
 =============================================================================
